@@ -374,7 +374,7 @@ pub mod verif_hooks {
     /// One call of the private `propagate_attachment_offsets`.
     pub fn propagate(pos: &[P], len: usize, i: usize, direction: Direction) -> Vec<P> {
         let mut v: Vec<GlyphPosition> = pos.iter().map(|p| mk_pos(*p)).collect();
-        propagate_attachment_offsets(&mut v, len, i, direction);
+        propagate_attachment_offsets(&mut v, len, i, direction, MAX_NESTING_LEVEL);
         v.iter().map(rd_pos).collect()
     }
 
